@@ -284,7 +284,10 @@ def execute(case):
                     kw['extra'] = a['extra']
                 if a['source'] is not None:
                     kw['source'] = a['source']
-                returns.append(edzed.ExtEvent(reps[0], a['etype']).send(a['value'], **kw))
+                # an event type that is equal to the configured one without being the same object
+                # (decoded from a message, read from a file, ...)
+                et = a['etype'].encode('ascii').decode('ascii') if a['value'] % 2 else a['etype']
+                returns.append(edzed.ExtEvent(reps[0], et).send(a['value'], **kw))
         await harness.vloop.sleep_until(loop, t0[0] + case['stop'])
         info['error_before_stop'] = repr(circuit.error) if circuit.error is not None else None
         info['finals'] = tuple(r.output for r in reps)
